@@ -101,6 +101,7 @@ def u_fill(root):
         M = s.locals["_mat"]
         isf = lambda t: z3.Exists([q], z3.And(0 <= q, q < kq, F[q] == t))
         return z3.And(0 <= kq, kq <= nF, M.rows == m + kq, M.cols == m + kq,
+                      z3.ForAll([q], z3.Implies(z3.And(0 <= q, q < nF), F[q] <= m + q)),          # the q-th fixed index leaves room for the n - nF free ones: insert positions stay in range
                       z3.ForAll([i], z3.And(0 <= cntF(F, kq, i), cntF(F, kq, i) <= kq)),
                       z3.ForAll([i], z3.Implies(z3.ForAll([q], z3.Implies(z3.And(0 <= q, q < kq), F[q] < i)), cntF(F, kq, i) == kq)),
                       z3.ForAll([i], z3.Implies(z3.ForAll([q], z3.Implies(z3.And(0 <= q, q < kq), F[q] >= i)), cntF(F, kq, i) == 0)),
